@@ -1,6 +1,6 @@
 (* C01 property theorems: statements only. *)
 From Coq Require Import List String Permutation Sorted.
-From PAFC01 Require Import ModelTree Sorting Proofs Proofs2 Proofs3 Proofs4 Model Proofs5.
+From PAFC01 Require Import ModelTree Sorting Proofs Proofs2 Proofs3 Proofs4 Proofs5.
 Import ListNotations.
 
 (* the advertised parameter order is strictly increasing in parameter id, has no repeats, lists
@@ -193,11 +193,17 @@ Theorem C01_unit_placement : forall (V : Type) (bin : binop -> V -> V -> V) (val
   lookup V p (inst_from_unit V bin value_for n u) = Some (IV (value_for (nth i (ordered_ids V n) 0) (nth i u dv))).
 Proof. exact unit_placement. Qed.
 
-(* known finding arith-member-in-tuple: the code as it is today drops tuple members that are arithmetic
-   priors (Model.prune; the full statement is refuted in Witness.tuple_arith_member_refuted).  Under the
-   explicit guard "every tuple member is a parameter or a constant" the current-code view IS the model *)
-Theorem C01_tuple_members_partial : forall n : fnode, simple_members n = true -> prune n = n.
-Proof. exact prune_id. Qed.
+(* tuple members of every kind (parameter, float or int constant, arithmetic on parameters) are kept and
+   evaluated: the tuple has one component per member and the component at a member's position is the value of
+   its expression (former finding arith-member-in-tuple / int-const-in-tuple, repaired by /repo 7acf0fe; the
+   legacy behaviour is refuted in Witness.tuple_arith_member_legacy_refuted) *)
+Theorem C01_tuple_member_derived : forall (V : Type) (bin : binop -> V -> V -> V) (args : nat -> option V)
+    (ms : list (string * (nat * node V))) (nm : string) (i : nat) (c : node V) (v : V),
+  Permutation (map (fun m => fst (snd m)) ms) (seq 0 (List.length ms)) ->
+  In (nm, (i, c)) ms -> eval V bin args c = Some v ->
+  exists vs, inst V bin args (NTuple ms) = ITup vs /\ List.length vs = List.length ms /\
+             nth i vs IMissing = IV v.
+Proof. exact tuple_member_derived. Qed.
 
 Print Assumptions C01_order.
 Print Assumptions C01_routes.
@@ -209,3 +215,4 @@ Print Assumptions C01_ith_value_tuple.
 Print Assumptions C01_routes_any_paths.
 Print Assumptions C01_frame.
 Print Assumptions C01_unit_placement.
+Print Assumptions C01_tuple_member_derived.
